@@ -109,6 +109,17 @@ class Manifest:
         b["params"] = params["reference"] if params else ident(*EMPTY_RECORD)
         return self._add("complexKey", b)
 
+    def as_dependency(self, ref):
+        """move an already declared type from inputDataTypes to dependencyDataTypes"""
+        want = ref["reference"]
+        for dt in self.m["inputDataTypes"]:
+            body = next(iter(dt.values()))
+            if body["name"] == want["name"] and body["namespace"] == want["namespace"]:
+                self.m["inputDataTypes"].remove(dt)
+                self.m["dependencyDataTypes"].append(dt)
+                return ref
+        raise KeyError(want)
+
     def resource(self, ns, segments, schema, methods, read_only=(), create_only=(), doc=""):
         """segments: list of (resourceName, None | (keyName, keyType))"""
         r = {
@@ -258,6 +269,11 @@ def t_named():
     for n, t in PRIMS:
         refs.append((n, m.typeref(ns, n.capitalize() + "Ref", t, doc="typeref of " + n)))
 
+    # types listed under dependencyDataTypes (registered after, but generated like, the input types)
+    dep_enum = m.as_dependency(m.enum(ns + ".dep", "DepEnum", ["X", "Y"], doc="declared in dependencyDataTypes"))
+    dep_rec = m.as_dependency(m.record(ns + ".dep", "DepRecord", [F("e", dep_enum, default="Y")]))
+    m.record(ns, "UsesDependencies", [F("e", dep_enum), F("r", dep_rec, opt=True)])
+
     m.record(ns, "NamedRequired",
              [F("color", color), F("odd", odd), F("single", single), F("fixed1", f1), F("fixed16", f16)]
              + [F(n + "Ref", r) for n, r in refs])
@@ -339,6 +355,14 @@ def t_nest():
         F("unionMap", M(union), default={"u": {"int": 5}}),
         F("deep", M(A(M(INT32))), default={"a": [{"b": 1}, {"c": 2, "d": 3}]}),
     ], doc="containers with non-empty defaults")
+    m.record(ns, "WithRaw", [
+        F("raw", RAW), F("optionalRaw", RAW, opt=True), F("raws", A(RAW)), F("rawMap", M(RAW), opt=True),
+    ], doc="rawRecord fields (restlidata.RawRecord)")
+    m.record(ns + ".outer", "WithNestedDefaults", [
+        F("leaf", leaf, doc="required record whose type has defaults"), F("own", INT32, default=1),
+        F("optionalLeaf", leaf, opt=True), F("defaultLeaf", leaf, default={"id": 9, "weight": 0.5}),
+        F("choice", union, default={"int": 3}),
+    ], doc="record in another package whose constructor chains into Leaf's")
     # NOTE: the generator decides "default is empty" with an UNANCHORED regexp (`\\[ *]` / `{ *}`), so all of the
     # defaults below are silently replaced by the empty container in the generated code. They still compile.
     m.record(ns, "NestedEmptyDefaults", [
@@ -481,7 +505,7 @@ def t_ckey():
     no_params = m.complex_key(ns + ".noParams", "NoParams_ComplexKey", key)
     empty_key = m.complex_key(ns + ".emptyKey", "EmptyKey_ComplexKey", R(*EMPTY_RECORD), params)
 
-    m.record(ns, "HoldsKeys", [
+    m.record(ns + ".holder", "HoldsKeys", [
         F("k", with_params), F("optional", nested, opt=True), F("list", A(no_params)), F("byName", M(with_params)),
     ], doc="complex keys used as ordinary field types")
 
@@ -491,6 +515,392 @@ def t_ckey():
     m.resource(ns + ".emptyKey", [("emptyKey", ("key", empty_key))], value, [rest("get", value)])
     # a collection keyed directly by a record (what the spec parser emits when the identifier has no "params")
     m.resource(ns + ".recordKey", [("recordKey", ("key", key))], value, all_methods(value))
+    return m
+
+
+# ---------------------------------------------------------------------------------------------------------- t-cycle
+
+@manifest
+def t_cycle():
+    m = Manifest("t-cycle")
+    a, b, c = "tcycle.a", "tcycle.b", "tcycle.c"
+    # --- a package cycle a -> b -> a (plus a self-recursive type), resolved by moving the types to conflictResolution
+    m.record(a, "Node", [
+        F("edges", A(R(b, "Edge"))), F("parent", R(a, "Node"), opt=True), F("kind", R(b, "Kind"), default="LEAF"),
+        F("shared", R(a, "Shared"), opt=True),
+    ], doc="a.Node -> b.Edge -> a.Node")
+    m.record(b, "Edge", [
+        F("from", R(a, "Node")), F("to", R(a, "Node"), opt=True), F("weight", R(b, "Weight"), default=1.5),
+        F("shared", R(b, "Shared"), opt=True), F("label", R(b, "Label"), opt=True),
+    ])
+    m.enum(b, "Kind", ["LEAF", "BRANCH"])
+    m.typeref(b, "Weight", F64)
+    m.union(b, "Label", [("string", STRING), (a + ".Node", R(a, "Node"))])
+    # --- two types with the same name in the two cyclic namespaces (get renamed when they land in the same package)
+    m.record(a, "Shared", [F("inA", INT32), F("other", R(b, "Shared"), opt=True)])
+    m.record(b, "Shared", [F("inB", STRING), F("back", A(R(a, "Shared")), opt=True)])
+    # --- a three-package cycle through includes
+    m.record(c, "Base", [F("next", R("tcycle.d", "Mid"), opt=True)])
+    m.record("tcycle.d", "Mid", [F("leaf", R("tcycle.e", "Top"), opt=True)])
+    m.record("tcycle.e", "Top", [F("x", INT32)], includes=[(c, "Base")])
+    # --- same type name in two unrelated, acyclic namespaces, and two namespaces with the same last segment
+    t1 = m.record("tcycle.x.common", "Thing", [F("x", INT32)])
+    t2 = m.record("tcycle.y.common", "Thing", [F("y", STRING)])
+    m.record("tcycle.user", "UsesBoth", [F("one", t1), F("two", t2), F("node", R(a, "Node"), opt=True)],
+             doc="imports two packages both called common, and a type that was moved by cycle resolution")
+    # --- namespace containing "internal" (escaped to _internal in the package path)
+    hidden = m.record("tcycle.internal.deep", "Hidden", [F("v", INT32)])
+    m.record("tcycle.user", "UsesInternal", [F("h", hidden)])
+    # --- names that only differ by case: two TYPES in one namespace are a generator failure (failing/case-only-type-
+    #     names.json); across namespaces and for enum symbols it works
+    m.record("tcycle.caseonly.one", "Item", [F("a", INT32)])
+    m.record("tcycle.caseonly.two", "ITEM", [F("b", INT32), F("item", R("tcycle.caseonly.one", "Item"), opt=True)])
+    m.enum("tcycle.caseonly.one", "Mode", ["on", "ON", "On"], doc="symbols differing only by case")
+    # --- identifiers with $, leading _ and leading digit where ExportedIdentifier is applied (fields, enum symbols,
+    #     union aliases, finder and action names, parameters)
+    m.enum("tcycle.idents", "Sym", ["$START", "MID$DLE", "END$", "_LEADING", "__DOUBLE"])
+    m.union("tcycle.idents", "Aliases", [("$dollar", INT32), ("_under", STRING), ("in$ide", BOOL), ("1digit", INT64)])
+    idents = m.record("tcycle.idents", "Fields", [
+        F("$dollar", INT32), F("_under", STRING, opt=True), F("in$ide", BOOL, default=True), F("tail$", INT32),
+        F("1digit", INT64, opt=True), F("__dunder", STRING, opt=True), F("ünïcode", STRING, opt=True),
+        F("type", STRING), F("func", INT32, opt=True), F("snake_case", INT32, default=1),
+        F("aliases", R("tcycle.idents", "Aliases"), opt=True), F("sym", R("tcycle.idents", "Sym"), default="$START"),
+    ])
+    m.resource("tcycle.idents.res", [("res", ("res_id", INT64))], idents, [
+        rest("get", idents),
+        finder("$find", idents, [F("$p", INT32), F("_q", STRING, opt=True)]),
+        finder("_under", idents),
+        # action NAMES with $ or a leading _ are generator failures (failing/action-name-*.json); parameters are fine
+        action("act", params=[F("$a", INT32), F("1b", STRING, opt=True), F("_c", BOOL, opt=True)], ret=INT32),
+    ])
+    return m
+
+
+# ---------------------------------------------------------------------------------------------------------- t-custom
+
+@manifest
+def t_custom():
+    # needs overlays/t-custom: tcustom/Temperature.go, tcustom/Email.go, tcustom/ids/UUID.go
+    m = Manifest("t-custom")
+    ns = "tcustom"
+    temp = m.typeref(ns, "Temperature", INT32, doc="custom typeref detected through tcustom/Temperature.go")
+    email = m.typeref(ns, "Email", STRING, doc="custom typeref, also flagged in the manifest", custom=True)
+    uuid = m.typeref(ns + ".ids", "UUID", BYTES, doc="custom bytes typeref in a sub-namespace")
+    plain = m.typeref(ns, "Plain", INT32, doc="ordinary generated typeref next to the custom ones", custom=False)
+    union = m.union(ns, "Reading", [(ns + ".Temperature", temp), ("string", STRING), ("id", uuid)])
+    value = m.record(ns, "Measurement", [
+        F("temp", temp), F("optionalTemp", temp, opt=True), F("defaultTemp", temp, default=273),
+        F("email", email), F("optionalEmail", email, opt=True), F("defaultEmail", email, default="a@b.c"),
+        F("id", uuid), F("optionalId", uuid, opt=True), F("defaultId", uuid, default="0123456789abcdef"),
+        F("plain", plain), F("temps", A(temp)), F("emails", A(email), opt=True),
+        F("idList", A(uuid), default=[]), F("tempByName", M(temp)), F("emailByName", M(email), opt=True),
+        F("deep", M(A(temp)), opt=True), F("reading", union, opt=True), F("readings", A(union), opt=True),
+    ], doc="custom typerefs as field, array element, map value and union member")
+    qp = [F("unit", temp, opt=True), F("contacts", A(email), opt=True)]
+    m.resource(ns + ".byTemp", [("byTemp", ("temp", temp))], value, all_methods(value))
+    m.resource(ns + ".byEmail", [("byEmail", ("email", email))], value, all_methods(value, qp) + [
+        finder("near", value, [F("t", temp), F("ids", A(uuid), opt=True)]),
+        action("convert", params=[F("t", temp), F("all", A(temp), opt=True)], ret=temp),
+        action("list", on_entity=True, ret=A(email)),
+        action("index", ret=M(uuid)),
+    ])
+    m.resource(ns + ".byId", [("byId", ("id", uuid))], value, all_methods(value))
+    m.resource(ns + ".byId.sub", [("byId", ("id", uuid)), ("sub", ("t", temp))], value, [rest("get", value)])
+    return m
+
+
+# ---------------------------------------------------------------------------------------------------------- r-coll
+
+def coll_params(ns, enum, tref, rec):
+    """query parameters of every shape (the spec parser never emits defaultValue for params, the generator honours
+    it nonetheless)"""
+    return [
+        F("required", INT32, doc="a required int param"),
+        F("optional", STRING, opt=True),
+        F("withDefault", INT64, opt=True, default=10),
+        F("flag", BOOL, opt=True),
+        F("ratio", F64, opt=True),
+        F("blob", BYTES, opt=True),
+        F("mode", enum, opt=True),
+        F("unit", tref, opt=True),
+        F("filter", rec, opt=True),
+        F("names", A(STRING), opt=True),
+        F("filters", A(rec), opt=True),
+        F("weights", M(F32), opt=True),
+    ]
+
+
+@manifest
+def r_coll():
+    m = Manifest("r-coll")
+    ns = "rcoll"
+    mode = m.enum(ns, "Mode", ["FAST", "SLOW"])
+    long_ref = m.typeref(ns, "MemberId", INT64, doc="typeref used as key")
+    string_ref = m.typeref(ns, "Urn", STRING)
+    unit = m.typeref(ns, "Unit", INT32)
+    fixed = m.fixed(ns, "Digest", 8)
+    flt = m.record(ns, "Filter", [F("field", STRING), F("values", A(STRING), default=[])])
+    value = m.record(ns, "Item", [
+        F("name", STRING), F("size", INT64, opt=True), F("mode", mode, default="FAST"), F("filter", flt, opt=True),
+    ], doc="collection value")
+    key_rec = m.record(ns, "ItemKey", [F("major", INT32), F("minor", INT32)])
+    key_params = m.record(ns, "ItemKeyParams", [F("hint", STRING, opt=True)])
+    params = coll_params(ns, mode, unit, flt)
+
+    keys = [
+        ("byLong", "id", INT64), ("byString", "name", STRING), ("byInt", "id", INT32), ("byTyperef", "memberId", long_ref),
+        ("byStringTyperef", "urn", string_ref), ("byEnum", "mode", mode), ("byFixed", "digest", fixed),
+        ("byBool", "flag", BOOL), ("byDouble", "d", F64),
+    ]
+    for res, key_name, key_type in keys:
+        # <res>: every method, no query params, no return entity
+        m.resource(ns + "." + res, [(res, (key_name, key_type))], value, all_methods(value),
+                   doc="collection keyed by " + key_name + " without query params")
+        # <res>Params: every method with query params; create/batch_create/partial_update return the entity
+        m.resource(ns + "." + res + "Params", [(res + "Params", (key_name, key_type))], value,
+                   all_methods(value, params, return_entity=True),
+                   doc="collection keyed by " + key_name + " with query params and return-entity")
+    ck = m.complex_key(ns + ".byComplex", "ByComplex_ComplexKey", key_rec, key_params)
+    m.resource(ns + ".byComplex", [("byComplex", ("key", ck))], value, all_methods(value))
+    ckp = m.complex_key(ns + ".byComplexParams", "ByComplexParams_ComplexKey", key_rec, key_params)
+    m.resource(ns + ".byComplexParams", [("byComplexParams", ("key", ckp))], value,
+               all_methods(value, params, return_entity=True))
+    # get_all with paging, with and without additional params; only some methods present
+    m.resource(ns + ".paged", [("paged", ("id", INT64))], value, [
+        rest("get_all", value, paging=True), rest("get", value),
+    ])
+    m.resource(ns + ".pagedParams", [("pagedParams", ("id", INT64))], value, [
+        rest("get_all", value, [F("q", STRING, opt=True)], paging=True),
+        rest("create", value, return_entity=True), rest("partial_update", value, return_entity=False),
+        rest("batch_create", value, [F("dryRun", BOOL, default=False)]),
+    ])
+    # bytes (or bytes-typeref) keys never compile, not even with `get` alone: see failing/bytes-key.json
+    # a collection that declares no methods at all (the generator emits nothing for it)
+    m.resource(ns + ".noMethods", [("noMethods", ("id", INT64))], value, [])
+    return m
+
+
+# ---------------------------------------------------------------------------------------------------------- r-simple
+
+SIMPLE_METHODS = ["get", "update", "partial_update", "delete"]
+
+
+def simple_methods(schema, params=(), return_entity=False):
+    return [rest(n, schema, params, collection=False, return_entity=return_entity and n == "partial_update")
+            for n in SIMPLE_METHODS]
+
+
+@manifest
+def r_simple():
+    m = Manifest("r-simple")
+    ns = "rsimple"
+    level = m.enum(ns, "Level", ["LOW", "HIGH"])
+    nested = m.record(ns, "Owner", [F("name", STRING), F("email", STRING, opt=True)])
+    value = m.record(ns, "Settings", [
+        F("title", STRING), F("level", level, default="LOW"), F("owner", nested, opt=True),
+        F("tags", A(STRING), default=[]), F("limits", M(INT64), opt=True),
+    ])
+    params = [F("verbose", BOOL, opt=True), F("level", level, opt=True), F("revision", INT64),
+              F("owners", A(nested), opt=True)]
+    m.resource(ns + ".plain", [("plain", None)], value, simple_methods(value) + [
+        action("reset"),
+        action("rename", params=[F("title", STRING)], ret=value),
+        action("count", ret=INT64),
+    ], doc="simple resource, no query params")
+    m.resource(ns + ".withParams", [("withParams", None)], value, simple_methods(value, params, True) + [
+        action("audit", params=[F("since", INT64, opt=True), F("owner", nested, opt=True)], ret=A(STRING)),
+    ], doc="simple resource, query params everywhere, partial_update returns the entity")
+    m.resource(ns + ".getOnly", [("getOnly", None)], value, [rest("get", value, collection=False)])
+    m.resource(ns + ".actionsOnly", [("actionsOnly", None)], value, [action("ping", ret=STRING)],
+               doc="simple resource that only has actions")
+    return m
+
+
+# ---------------------------------------------------------------------------------------------------------- r-sub
+
+@manifest
+def r_sub():
+    m = Manifest("r-sub")
+    ns = "rsub"
+    kind = m.enum(ns, "Kind", ["X", "Y"])
+    tref = m.typeref(ns, "ChildId", STRING)
+    parent_v = m.record(ns, "Parent", [F("name", STRING)])
+    child_v = m.record(ns, "Child", [F("age", INT32), F("nick", STRING, opt=True)])
+    grand_v = m.record(ns, "Grandchild", [F("toy", STRING, default="ball")])
+    key_rec = m.record(ns, "CKey", [F("a", INT64), F("b", STRING)])
+    key_params = m.record(ns, "CKeyParams", [F("p", INT32, opt=True)])
+    qp = [F("fields", A(STRING), opt=True)]
+
+    # collection -> collection -> collection
+    p = ns + ".parents"
+    s0 = [("parents", ("parentId", INT64))]
+    s1 = s0 + [("children", ("childId", tref))]
+    s2 = s1 + [("grandchildren", ("grandchildId", kind))]
+    m.resource(p, s0, parent_v, all_methods(parent_v))
+    m.resource(p + ".children", s1, child_v, all_methods(child_v, qp, return_entity=True) + [
+        finder("byAge", child_v, [F("age", INT32)]), action("promote", on_entity=True), action("purge"),
+    ], doc="one path key inherited")
+    m.resource(p + ".children.grandchildren", s2, grand_v, all_methods(grand_v) + [
+        finder("all", grand_v, paging=True),
+        action("play", on_entity=True, params=[F("minutes", INT32)], ret=BOOL),
+        action("tidy", ret=A(grand_v)),
+    ], doc="two path keys inherited")
+
+    # collection (complex key) -> simple -> collection
+    c = ns + ".complex"
+    ck = m.complex_key(c, "Complex_ComplexKey", key_rec, key_params)
+    c0 = [("complex", ("complexKey", ck))]
+    c1 = c0 + [("profile", None)]
+    c2 = c1 + [("entries", ("entryId", INT32))]
+    m.resource(c, c0, parent_v, [rest("get", parent_v), rest("batch_get", parent_v)])
+    m.resource(c + ".profile", c1, child_v, simple_methods(child_v) + [action("touch", ret=INT64)],
+               doc="simple sub-resource of a complex-key collection")
+    m.resource(c + ".profile.entries", c2, grand_v, all_methods(grand_v, qp) + [
+        action("onEntry", on_entity=True, ret=grand_v),
+    ], doc="collection below a simple below a collection")
+
+    # simple -> collection -> simple, and simple -> simple
+    r = ns + ".root"
+    r0 = [("root", None)]
+    r1 = r0 + [("items", ("itemId", STRING))]
+    r2 = r1 + [("detail", None)]
+    m.resource(r, r0, parent_v, simple_methods(parent_v))
+    m.resource(r + ".items", r1, child_v, all_methods(child_v) + [finder("byNick", child_v, [F("nick", STRING)])])
+    m.resource(r + ".items.detail", r2, grand_v, simple_methods(grand_v, qp, True) + [action("explain", ret=STRING)])
+    m.resource(r + ".status", r0 + [("status", None)], child_v, [rest("get", child_v, collection=False)])
+    # actionSet below nothing but with a parent that has no methods (parents need not be generated)
+    m.resource(ns + ".ghost.leaf", [("ghost", ("ghostId", INT64)), ("leaf", ("leafId", INT64))], grand_v,
+               [rest("get", grand_v), rest("get_all", grand_v)], doc="sub-resource whose parent is not in the manifest")
+    return m
+
+
+# ---------------------------------------------------------------------------------------------------------- r-find-act
+
+@manifest
+def r_find_act():
+    m = Manifest("r-find-act")
+    ns = "rfindact"
+    color = m.enum(ns, "Color", ["RED", "BLUE"])
+    score = m.typeref(ns, "Score", F64)
+    digest = m.fixed(ns, "Digest", 4)
+    crit = m.record(ns, "Criteria", [F("field", STRING), F("min", INT32, opt=True), F("max", INT32, default=100)])
+    value = m.record(ns, "Doc", [F("title", STRING), F("body", STRING, opt=True), F("score", score, opt=True)])
+    meta = m.record(ns, "SearchMetadata", [F("took", INT64), F("facets", M(INT32), default={})])
+    meta2 = m.record(ns + ".meta", "OtherMetadata", [F("note", STRING, opt=True)], doc="metadata in another namespace")
+    choice = m.union(ns, "Outcome", [("ok", BOOL), ("error", STRING), ("doc", value)])
+
+    finder_params = [
+        F("text", STRING), F("limit", INT32, opt=True), F("color", color, opt=True), F("minScore", score, opt=True),
+        F("criteria", crit, opt=True), F("criteriaList", A(crit), opt=True), F("ids", A(INT64), opt=True),
+        F("boost", M(F64), opt=True), F("digest", digest, opt=True), F("raw", BYTES, opt=True),
+        F("withDefault", INT32, opt=True, default=7),
+    ]
+    finders = [
+        finder("noParams", value, doc="finder without params"),
+        finder("search", value, finder_params, doc="finder with params"),
+        finder("oneParam", value, [F("title", STRING)]),
+        finder("noParamsPaged", value, paging=True, doc="finder with only the paging context"),
+        finder("searchPaged", value, finder_params, paging=True, doc="finder with params and paging context"),
+        finder("noParamsMeta", value, metadata=meta),
+        finder("searchMeta", value, finder_params, metadata=meta),
+        finder("searchPagedMeta", value, [F("text", STRING, opt=True)], paging=True, metadata=meta2),
+        finder("unionMeta", value, metadata=choice, doc="metadata typed as a union"),
+        finder("snake_case", value, [F("snake_param", STRING, opt=True)]),
+    ]
+    action_params = [
+        F("text", STRING), F("count", INT32, opt=True), F("color", color, opt=True), F("score", score, opt=True),
+        F("criteria", crit), F("criteriaList", A(crit), opt=True), F("byName", M(crit), opt=True),
+        F("digest", digest, opt=True), F("raw", BYTES, opt=True), F("doc", value, opt=True),
+        F("outcome", choice, opt=True), F("nested", A(M(A(INT32))), opt=True),
+    ]
+    returns = [
+        ("Nothing", None), ("Int", INT32), ("Long", INT64), ("Float", F32), ("Double", F64), ("Bool", BOOL),
+        ("String", STRING), ("Bytes", BYTES), ("Enum", color), ("Typeref", score), ("Fixed", digest),
+        ("Record", value), ("Union", choice), ("IntArray", A(INT32)), ("BytesArray", A(BYTES)),
+        ("RecordArray", A(value)), ("EnumArray", A(color)), ("UnionArray", A(choice)), ("StringMap", M(STRING)),
+        ("RecordMap", M(value)), ("FixedMap", M(digest)), ("Nested", M(A(M(value)))),
+    ]
+
+    def actions(on_entity, prefix):
+        out = []
+        for name, ret in returns:
+            out.append(action(prefix + name, on_entity=on_entity, ret=ret, doc="no params, returns " + name))
+            out.append(action(prefix + name + "WithParams", on_entity=on_entity, params=action_params, ret=ret))
+        return out
+
+    m.resource(ns + ".docs", [("docs", ("docId", INT64))], value,
+               [rest("get", value)] + finders + actions(False, "coll") + actions(True, "entity"),
+               doc="collection with every finder and action shape")
+    m.resource(ns + ".findersOnly", [("findersOnly", ("id", STRING))], value, finders[:2])
+    m.resource(ns + ".single", [("single", None)], value,
+               [rest("get", value, collection=False)] + actions(False, "do"),
+               doc="simple resource with actions")
+    # actionsSet: no schema, no key
+    m.resource(ns + ".tools", [("tools", None)], None, actions(False, "tool"), doc="actionsSet resource")
+    m.resource(ns + ".docs.subTools", [("docs", ("docId", INT64)), ("subTools", None)], None,
+               [action("reindex", params=[F("force", BOOL, opt=True)], ret=INT32), action("noop")],
+               doc="actionsSet as a sub-resource: path key of the parent is inherited")
+    return m
+
+
+# ---------------------------------------------------------------------------------------------------------- r-annot
+
+WRITING_COLLECTION_METHODS = ["create", "update", "partial_update", "batch_create", "batch_update",
+                              "batch_partial_update"]
+
+
+@manifest
+def r_annot():
+    m = Manifest("r-annot")
+    ns = "rannot"
+    audit = m.record(ns, "AuditStamp", [F("time", INT64), F("actor", STRING, opt=True)])
+    part = m.record(ns, "Part", [F("sku", STRING), F("serial", STRING, opt=True), F("stamp", audit, opt=True)])
+    choice = m.union(ns, "Payload", [("text", STRING), (ns + ".Part", part)])
+    value = m.record(ns, "Widget", [
+        F("id", INT64, opt=True, doc="read-only: assigned by the server"),
+        F("name", STRING),
+        F("owner", STRING, doc="create-only"),
+        F("created", audit, opt=True, doc="read-only nested record"),
+        F("modified", audit, opt=True, doc="modified/time is read-only, /modified/actor create-only (leading slash)"),
+        F("parts", A(part), default=[], doc="parts/*/serial is read-only, parts/*/sku create-only"),
+        F("partsByName", M(part), opt=True, doc="partsByName/*/stamp read-only"),
+        F("labels", M(STRING), opt=True, doc="labels/system read-only (one map key)"),
+        F("payload", choice, opt=True, doc="payload/rannot.Part/serial read-only (through a union member)"),
+        F("revision", INT32, default=0, doc="read-only field that has a default"),
+        F("free", STRING, opt=True, doc="not annotated"),
+    ])
+    read_only = ["id", "created", "modified/time", "parts/*/serial", "partsByName/*/stamp", "labels/system",
+                 "payload/" + ns + ".Part/serial", "revision"]
+    create_only = ["owner", "parts/*/sku", "partsByName/*/sku", "/modified/actor"]
+    qp = [F("reason", STRING, opt=True)]
+
+    def writers(collection, params=(), return_entity=False):
+        if collection:
+            names = ALL_COLLECTION_METHODS
+        else:
+            names = SIMPLE_METHODS
+        return [rest(n, value, params, collection=collection,
+                     return_entity=return_entity and n in ("create", "batch_create", "partial_update"))
+                for n in names]
+
+    m.resource(ns + ".widgets", [("widgets", ("widgetId", INT64))], value, writers(True),
+               read_only=read_only, create_only=create_only, doc="read-only and create-only fields")
+    m.resource(ns + ".widgetsReturning", [("widgetsReturning", ("widgetId", STRING))], value,
+               writers(True, qp, True), read_only=read_only, create_only=create_only,
+               doc="same with query params and return-entity")
+    m.resource(ns + ".readOnlyOnly", [("readOnlyOnly", ("widgetId", INT64))], value, writers(True),
+               read_only=["id"], doc="only read-only fields")
+    m.resource(ns + ".createOnlyOnly", [("createOnlyOnly", ("widgetId", INT64))], value, writers(True),
+               create_only=["owner", "parts/*/sku"], doc="only create-only fields")
+    m.resource(ns + ".widget", [("widget", None)], value, writers(False), read_only=read_only,
+               create_only=create_only, doc="simple resource with annotations")
+    m.resource(ns + ".widgetReturning", [("widgetReturning", None)], value, writers(False, qp, True),
+               read_only=["id"], create_only=["owner"])
+    m.resource(ns + ".widgets.parts", [("widgets", ("widgetId", INT64)), ("parts", ("partId", STRING))], part,
+               [rest(n, part) for n in WRITING_COLLECTION_METHODS] + [rest("get", part)],
+               read_only=["serial", "stamp/time"], create_only=["sku"], doc="annotated sub-resource")
+    m.resource(ns + ".unannotated", [("unannotated", ("widgetId", INT64))], value, writers(True),
+               doc="control: same value type without annotations")
     return m
 
 
@@ -510,6 +920,144 @@ def f_union_only_null():
     ns = "f"
     u = m.union(ns, "OnlyNull", [], has_null=True, doc="union[null]")
     m.record(ns, "Holder", [F("u", u, opt=True)])
+    return m
+
+
+@failing
+def f_case_only_type_names():
+    m = Manifest("case-only-type-names", "verifcorpus/failing/caseonly")
+    m.record("f", "Item", [F("a", INT32)])
+    m.record("f", "ITEM", [F("b", INT32)])
+    return m
+
+
+@failing
+def f_action_name_dollar():
+    m = Manifest("action-name-dollar", "verifcorpus/failing/actiondollar")
+    v = m.record("f", "V", [F("a", INT32)])
+    m.resource("f.res", [("res", ("id", INT64))], v, [action("$act", ret=INT32)])
+    return m
+
+
+@failing
+def f_action_name_underscore():
+    m = Manifest("action-name-underscore", "verifcorpus/failing/actionunderscore")
+    v = m.record("f", "V", [F("a", INT32)])
+    m.resource("f.res", [("res", ("id", INT64))], v, [action("_act", ret=INT32)])
+    return m
+
+
+@failing
+def f_nondeterministic_cycle():
+    # a.X -> b.Y -> a.Z is a package cycle a -> b -> a; b.W -> a.X only points INTO it. Whether W is also moved to
+    # the conflictResolution package depends on the (random) map iteration order in flagCyclicDependencies: starting
+    # from W the reported cycle is W -> X -> Y, starting from X it is X -> Y -> Z and W stays in package b.
+    m = Manifest("nondeterministic-cycle", "verifcorpus/failing/ndcycle")
+    m.record("nd.a", "X", [F("y", R("nd.b", "Y"), opt=True)])
+    m.record("nd.b", "Y", [F("z", R("nd.a", "Z"), opt=True)])
+    m.record("nd.a", "Z", [F("v", INT32)])
+    m.record("nd.b", "W", [F("x", R("nd.a", "X"), opt=True)])
+    return m
+
+
+@failing
+def f_bytes_key():
+    m = Manifest("bytes-key", "verifcorpus/failing/byteskey")
+    v = m.record("f", "V", [F("a", INT32)])
+    token = m.typeref("f", "Token", BYTES)
+    m.resource("f.raw", [("raw", ("key", BYTES))], v, [rest("get", v)])
+    m.resource("f.token", [("token", ("key", token))], v, [rest("get", v)])
+    return m
+
+
+@failing
+def f_union_members_same_simple_name():
+    # union[a.Rec, b.Rec] without aliases: both members become the Go field `Rec`
+    m = Manifest("union-members-same-simple-name", "verifcorpus/failing/unionsamename")
+    ra = m.record("f.a", "Rec", [F("x", INT32)])
+    rb = m.record("f.b", "Rec", [F("y", INT32)])
+    m.union("f", "U", [("f.a.Rec", ra), ("f.b.Rec", rb)])
+    return m
+
+
+@failing
+def f_field_named_like_method():
+    # record fields whose exported name equals a generated method of the struct
+    m = Manifest("field-named-like-method", "verifcorpus/failing/fieldmethod")
+    m.record("f", "Eq", [F("equals", BOOL)])
+    m.record("f", "Hash", [F("computeHash", INT64, opt=True)])
+    m.record("f", "Inst", [F("newInstance", STRING, opt=True)])
+    m.record("f", "Marsh", [F("marshalFields", STRING, opt=True)])
+    return m
+
+
+@failing
+def f_field_named_like_include():
+    # record A includes B and has a field "b": embedded struct B and field B collide
+    m = Manifest("field-named-like-include", "verifcorpus/failing/fieldinclude")
+    b = m.record("f", "B", [F("x", INT32)])
+    m.record("f", "A", [F("b", STRING)], includes=[b])
+    return m
+
+
+@failing
+def f_includes_same_simple_name():
+    # record C includes a.Base and b.Base: two embedded fields called Base
+    m = Manifest("includes-same-simple-name", "verifcorpus/failing/includesamename")
+    ba = m.record("f.a", "Base", [F("x", INT32)])
+    bb = m.record("f.b", "Base", [F("y", INT32)])
+    m.record("f", "C", [F("z", INT32)], includes=[ba, bb])
+    return m
+
+
+@failing
+def f_fields_differ_by_case():
+    m = Manifest("fields-differ-by-case", "verifcorpus/failing/fieldcase")
+    m.record("f", "R", [F("value", INT32), F("Value", STRING)])
+    return m
+
+
+@failing
+def f_lowercase_type_name():
+    # pegasus allows type names that start with a lower case letter or _; they become unexported Go types
+    m = Manifest("lowercase-type-name", "verifcorpus/failing/lowercasetype")
+    lower = m.record("f.a", "lower", [F("x", INT32)])
+    m.record("f.b", "User", [F("l", lower)])
+    return m
+
+
+@failing
+def f_action_param_default():
+    # NOT producible by the spec parser (it turns parameter defaults into isOptional), but accepted by the manifest
+    # grammar: an action parameter carrying defaultValue
+    m = Manifest("action-param-default", "verifcorpus/failing/actionparamdefault")
+    v = m.record("f", "V", [F("a", INT32)])
+    m.resource("f.res", [("res", ("id", INT64))], v, [action("act", params=[F("n", INT32, default=1)])])
+    return m
+
+
+@failing
+def f_namespace_go_keyword():
+    m = Manifest("namespace-go-keyword", "verifcorpus/failing/nskeyword")
+    m.record("f.common.type", "R", [F("x", INT32)])
+    return m
+
+
+@failing
+def f_namespace_main():
+    m = Manifest("namespace-main", "verifcorpus/failing/nsmain")
+    r = m.record("f.main", "R", [F("x", INT32)])
+    m.record("f.user", "U", [F("r", r)])
+    return m
+
+
+@failing
+def f_type_named_like_resource_type():
+    # a data type living in a resource's namespace and named like one of the fixed resource-level types
+    m = Manifest("type-named-like-resource-type", "verifcorpus/failing/typeresource")
+    v = m.record("f", "V", [F("a", INT32)])
+    m.record("f.res", "Client", [F("a", INT32)])
+    m.resource("f.res", [("res", ("id", INT64))], v, [rest("get", v)])
     return m
 
 
